@@ -529,6 +529,56 @@ class DurQ(Op):
         return "durq/%s/%s" % (a[0], durq.case(a[1])[0])
 
 
+class DDerived(Op):
+    """Durations with a past: a duration is asked for its length, compared, hashed and printed, then others are derived
+    from it (+, -, *, //, abs, unary use as an operand on either side).  Each derived value must equal, hash like,
+    measure like and order like the same components constructed afresh."""
+    prop = PROP
+    name = "dderived"
+    model = False
+
+    def gen(self, rng, tier, boost):
+        for _ in range(500 * boost if tier == "quick" else 5000 * boost):
+            yield (gens.mode(rng), gen_dur(rng), gen_dur(rng), rng.choice([2, 3, -1, 0, 7]))
+
+    def line(self, a):
+        return "dderived %s %s %s %d" % (a[0], T.dur_str(a[1]), T.dur_str(a[2]), a[3])
+
+    def impl(self, a):
+        from metomi.isodatetime.data import Duration
+        set_mode(a[0])
+        x, y, k = T.mk_dur(a[1]), T.mk_dur(a[2]), a[3]
+        x.get_seconds(), x.get_days_and_seconds(), hash(x), str(x), x == y, x.is_exact(), bool(x)
+        try:
+            x < y
+        except Exception:
+            pass
+        problems = []
+        derived = [("x + y", lambda: x + y), ("y + x", lambda: y + x), ("x - y", lambda: x - y),
+                   ("x * k", lambda: x * k), ("abs(x)", lambda: abs(x)), ("x + x", lambda: x + x)]
+        if k:
+            derived.append(("x // k", lambda: x // k))
+        for name, make in derived:
+            d = make()
+            if d.weeks is not None:
+                fresh = Duration(weeks=d.weeks)
+            else:
+                fresh = Duration(years=d.years, months=d.months, days=d.days, hours=d.hours, minutes=d.minutes,
+                                 seconds=d.seconds)
+            facts_d = (d.get_seconds(), d.get_days_and_seconds(), d.is_exact(), bool(d), str(d))
+            facts_f = (fresh.get_seconds(), fresh.get_days_and_seconds(), fresh.is_exact(), bool(fresh), str(fresh))
+            if facts_d != facts_f or not (d == fresh) or hash(d) != hash(fresh) or d < fresh or d > fresh:
+                problems.append("%s: derived %r, the same components afresh %r" % (name, facts_d, facts_f))
+        return "ok" if not problems else "PROBLEMS " + "; ".join(problems)
+
+    def oracle(self, a, out):
+        if out != "ok":
+            return "%s: %s" % (self.line(a), out)
+
+    def label(self, a):
+        return "dderived/%s/%s" % (a[0], a[1][0])
+
+
 def ops():
-    return [DurQ(), DAdd(), DAssoc(), DMul(), DEq(), DHashEq(), DCmp(), DUnary(), DSecs(), DMisc(), DToDays(),
+    return [DurQ(), DDerived(), DAdd(), DAssoc(), DMul(), DEq(), DHashEq(), DCmp(), DUnary(), DSecs(), DMisc(), DToDays(),
             DToWeeks(), DBool(), DFloorDiv(), DMk(), DFloat()]
